@@ -153,25 +153,38 @@ struct Pass {
     /// insert_with_callback (vectors visible during construction) or plain insert (as the SQL layer does)
     insert_cb: bool,
     deletes: bool,
+    /// may the (design-rule) entry point be deleted
     delete_entry: bool,
+    /// may an insert follow a delete
+    insert_after_delete: bool,
+    /// also ask plain search for k = live+1 (more than there are live rows); search_filtered always is
+    k_above_live: bool,
     vecs: &'static [u8],
     depth_q: usize,
     depth_t: usize,
 }
 
+const ALL: &[u8] = &[0, 1, 2, 3, 4, 5];
+const BOTH: &[Api] = &[Api::Plain, Api::Filtered];
+
 fn passes() -> Vec<Pass> {
     vec![
-        Pass { name: "full", apis: &[Api::Plain, Api::Filtered], insert_cb: true, deletes: true, delete_entry: true, vecs: &[0, 1, 2, 3, 4, 5], depth_q: 4, depth_t: 5 },
-        Pass { name: "no-deletes", apis: &[Api::Plain, Api::Filtered], insert_cb: true, deletes: false, delete_entry: false, vecs: &[0, 1, 2, 3, 4, 5], depth_q: 5, depth_t: 6 },
-        Pass { name: "filtered-keep-entry", apis: &[Api::Filtered], insert_cb: true, deletes: true, delete_entry: false, vecs: &[0, 1, 2, 3, 4, 5], depth_q: 5, depth_t: 6 },
-        Pass { name: "filtered-keep-entry-insert-without-vectors", apis: &[Api::Filtered], insert_cb: false, deletes: true, delete_entry: false, vecs: &[0, 1, 2, 3, 4, 5], depth_q: 4, depth_t: 5 },
-        Pass { name: "filtered-keep-entry-3-points", apis: &[Api::Filtered], insert_cb: true, deletes: true, delete_entry: false, vecs: &[0, 1, 5], depth_q: 6, depth_t: 7 },
+        // 1. the statement as written, whole alphabet
+        Pass { name: "full", apis: BOTH, insert_cb: true, deletes: true, delete_entry: true, insert_after_delete: true, k_above_live: true, vecs: ALL, depth_q: 4, depth_t: 5 },
+        // 2. operations only (searches muted) so that histories continue past the search defects
+        Pass { name: "ops-succeed-no-searches", apis: &[], insert_cb: true, deletes: true, delete_entry: true, insert_after_delete: true, k_above_live: true, vecs: &[0, 1], depth_q: 4, depth_t: 6 },
+        // 3. known-defect triggers removed: no deletes at all / deletes that keep the entry point, no
+        //    insert after a delete, plain search only asked for k <= live (search_filtered also k = live+1)
+        Pass { name: "no-deletes", apis: BOTH, insert_cb: true, deletes: false, delete_entry: false, insert_after_delete: true, k_above_live: true, vecs: ALL, depth_q: 4, depth_t: 6 },
+        Pass { name: "keep-entry-no-insert-after-delete", apis: BOTH, insert_cb: true, deletes: true, delete_entry: false, insert_after_delete: false, k_above_live: false, vecs: ALL, depth_q: 4, depth_t: 6 },
+        Pass { name: "insert-without-vectors", apis: BOTH, insert_cb: false, deletes: true, delete_entry: false, insert_after_delete: false, k_above_live: false, vecs: ALL, depth_q: 3, depth_t: 5 },
+        Pass { name: "3-points-deeper", apis: BOTH, insert_cb: true, deletes: true, delete_entry: false, insert_after_delete: false, k_above_live: false, vecs: &[0, 1, 5], depth_q: 5, depth_t: 7 },
     ]
 }
 
 fn enabled(pass: &Pass, m: &Model) -> Vec<Op> {
     let mut v = Vec::new();
-    if m.next_row <= 9 {
+    if m.next_row <= 9 && (pass.insert_after_delete || m.dead.is_empty()) {
         for &p in pass.vecs {
             v.push(Op::Ins { v: p, hi: false });
             v.push(Op::Ins { v: p, hi: true });
@@ -283,6 +296,15 @@ impl Real {
     }
 }
 
+fn ks_for(pass: &Pass, api: Api, live: usize) -> Vec<usize> {
+    if pass.k_above_live || api == Api::Filtered {
+        return ks(live);
+    }
+    let mut v = vec![1, 2.min(live.max(1)), live.max(1)];
+    v.sort();
+    v.dedup();
+    v
+}
 fn ks(live: usize) -> Vec<usize> {
     let mut v = vec![1, 2, live.max(1), live + 1];
     v.sort();
@@ -410,7 +432,7 @@ impl<'a> Runner<'a> {
         let mut v = Vec::new();
         for &api in pass.apis {
             for (qi, q) in DOMAIN.iter().enumerate() {
-                for k in ks(m.live.len()) {
+                for k in ks_for(pass, api, m.live.len()) {
                     self.stats.searches += 1;
                     let out = real.search(api, q, k, &mut self.sctx, m);
                     if let Ok(r) = &out {
@@ -595,6 +617,9 @@ fn ulp(x: f32) -> f64 {
     let a = x.abs();
     if !a.is_finite() {
         return f64::INFINITY;
+    }
+    if a == f32::MAX {
+        return (a as f64) - (f32::from_bits(a.to_bits() - 1) as f64);
     }
     let next = f32::from_bits(a.to_bits() + 1);
     (next as f64) - (a as f64)
@@ -843,9 +868,11 @@ fn sql_history(ctx: &Ctx, hist: &[SqlOp], name: &str) -> Vec<Viol> {
     out
 }
 
-fn sql_enabled(live: &BTreeSet<u8>, next: u8, last_reopen: bool) -> Vec<SqlOp> {
-    let mut v: Vec<SqlOp> = (0..DOMAIN.len() as u8).map(SqlOp::Ins).collect();
-    let _ = next;
+/// INSERT is not offered once the database was reopened: at this commit any INSERT into a
+/// BIGINT-PRIMARY-KEY table after close+open fails with "key already exists" (with or without an
+/// HNSW index, also for non-vector tables) - a defect outside this property.
+fn sql_enabled(live: &BTreeSet<u8>, reopened: bool, last_reopen: bool) -> Vec<SqlOp> {
+    let mut v: Vec<SqlOp> = if reopened { Vec::new() } else { (0..DOMAIN.len() as u8).map(SqlOp::Ins).collect() };
     for &r in live {
         v.push(SqlOp::Del(r));
     }
@@ -863,12 +890,19 @@ fn sql_pass(ctx: &Ctx, rep: &mut Reporter) {
     for len in 1..=depth {
         // iterative enumeration of all histories of length len
         let mut stack: Vec<(Vec<SqlOp>, BTreeSet<u8>, u8, bool)> = vec![(Vec::new(), BTreeSet::new(), 1, false)];
+        // tuple: (history, live ids, next id, last op was reopen); 'reopened' is derived from the history
         while let Some((h, live, next, lr)) = stack.pop() {
             if h.len() == len {
                 idx += 1;
-                let owner = ctx.mine(idx + 7);
-                // every worker must know divergences of short histories; only length<depth matter
-                if !owner && len == depth {
+                // a history belongs to the worker that owns its first operation (so that worker
+                // knows every divergent prefix of the histories it extends)
+                let first = match h[0] {
+                    SqlOp::Ins(v) => v as u64,
+                    SqlOp::Del(_) => 8,
+                    SqlOp::Reopen => 9,
+                };
+                let owner = ctx.mine(first * 5 + 3);
+                if !owner {
                     continue;
                 }
                 if ctx.expired() {
@@ -898,7 +932,7 @@ fn sql_pass(ctx: &Ctx, rep: &mut Reporter) {
                 }
                 continue;
             }
-            let mut ops = sql_enabled(&live, next, lr);
+            let mut ops = sql_enabled(&live, h.contains(&SqlOp::Reopen), lr);
             ops.reverse();
             for op in ops {
                 let mut h2 = h.clone();
@@ -958,28 +992,29 @@ impl Check for C25 {
         if only.is_none() || only == Some("sq8") {
             sq8_pass(ctx, rep);
         }
-        for pass in &ps {
-            if only.is_some() && only != Some(pass.name) {
-                continue;
-            }
-            let depth = ctx.opt("depth").and_then(|d| d.parse().ok()).unwrap_or(ctx.tier.pick(pass.depth_q, pass.depth_t));
-            let mut diverged: HashSet<Vec<u8>> = HashSet::new();
-            let mut ok = true;
-            for len in 1..=depth {
-                let mut idx = 0u64;
-                rep.begin_case(&format!("{{\"pass\":\"{}\",\"length\":{}}}", pass.name, len));
-                ok = r.level(pass, len, &mut Vec::new(), &mut Vec::new(), &Model::new(), &mut diverged, rep, &mut idx);
-                if !ok {
-                    break;
-                }
-            }
-            r.stats.flush(rep);
-            if !ok {
-                return;
-            }
-        }
         if only.is_none() || only == Some("sql") {
             sql_pass(ctx, rep);
+        }
+        // length-major order: every pass completes length L before any pass starts L+1, so a
+        // deadline leaves all passes complete up to the same length
+        let sel: Vec<&Pass> = ps.iter().filter(|p| only.is_none() || only == Some(p.name)).collect();
+        let depth_of = |p: &Pass| ctx.opt("depth").and_then(|d| d.parse().ok()).unwrap_or(ctx.tier.pick(p.depth_q, p.depth_t));
+        let mut diverged: Vec<HashSet<Vec<u8>>> = sel.iter().map(|_| HashSet::new()).collect();
+        let maxd = sel.iter().map(|p| depth_of(p)).max().unwrap_or(0);
+        'len: for len in 1..=maxd {
+            for (pi, pass) in sel.iter().enumerate() {
+                if len > depth_of(pass) {
+                    continue;
+                }
+                let mut idx = 0u64;
+                rep.begin_case(&format!("{{\"pass\":\"{}\",\"length\":{}}}", pass.name, len));
+                let ok = r.level(pass, len, &mut Vec::new(), &mut Vec::new(), &Model::new(), &mut diverged[pi], rep, &mut idx);
+                r.stats.flush(rep);
+                if !ok {
+                    break 'len;
+                }
+                rep.count(&format!("worker_levels_completed:{}", pass.name), 1);
+            }
         }
     }
 
